@@ -5,36 +5,48 @@
     at that moment is a stutter), their pins and their assumptions. *)
 From RepeV Require Import Model.ClientMux Proofs.ClientMuxProofs.
 
-(** every pending id was issued before: it is below the counter *)
-Theorem C04_ids_fresh : forall ws l id c, N.of_nat (length l) + 2 < two64 ->
+(** without caller-supplied ids, every pending id was issued before: it is below the counter *)
+Theorem C04_ids_fresh : forall ws l id c, N.of_nat (length l) + 2 < two64 -> existsb is_forward l = false ->
   In (id, c) (m_pending (run ws mux0 l)) -> id < m_next (run ws mux0 l).
 Proof. exact ids_fresh_reach. Qed.
 
-(** the ids issued on one connection, and those put on the wire, are pairwise
-    distinct (below 2^64 - 2 steps, i.e. before the counter can wrap) *)
-Theorem C04_ids_distinct : forall ws l, N.of_nat (length l) + 2 < two64 ->
+(** [all_fresh]: no ACCEPTED registration reuses an id -- the id of every
+    Register / Forward step is either pending at that moment (then the step is
+    refused) or was never registered on this connection.  Step lists without
+    caller-supplied ids (the blocking and the WebSocket client have none) satisfy
+    it outright; with forwarded ids it is a genuine hypothesis, see
+    [C04_id_reuse_refuted] below. *)
+Theorem C04_all_fresh_without_forward : forall ws l, N.of_nat (length l) + 2 < two64 ->
+  existsb is_forward l = false -> all_fresh ws mux0 l = true.
+Proof. exact nofwd_all_fresh. Qed.
+
+(** the ids registered on one connection (counter-issued or caller-supplied),
+    and those put on the wire, are pairwise distinct (below 2^64 - 2 steps,
+    i.e. before the counter can wrap) *)
+Theorem C04_ids_distinct : forall ws l, N.of_nat (length l) + 2 < two64 -> all_fresh ws mux0 l = true ->
   NoDup (map snd (m_issued (run ws mux0 l))) /\ NoDup (map snd (m_wire (run ws mux0 l))).
 Proof. exact ids_distinct_reach. Qed.
 
 (** the pending map is injective both ways: one entry per id, one id per caller *)
-Theorem C04_pending_inj : forall ws l, N.of_nat (length l) + 2 < two64 ->
+Theorem C04_pending_inj : forall ws l, N.of_nat (length l) + 2 < two64 -> all_fresh ws mux0 l = true ->
   NoDup (map fst (m_pending (run ws mux0 l))) /\
   forall id1 id2 c, In (id1, c) (m_pending (run ws mux0 l)) -> In (id2, c) (m_pending (run ws mux0 l)) -> id1 = id2.
 Proof. exact pending_inj_reach. Qed.
 
-(** the id about to be issued is never pending (the async clients' duplicate-id
-    refusal cannot fire) *)
-Theorem C04_register_never_collides : forall ws l, N.of_nat (length l) + 2 < two64 ->
+(** without caller-supplied ids the id about to be issued is never pending: the
+    duplicate-id refusal of the async and WebSocket clients cannot fire, and the
+    blocking client's unchecked insert never replaces an entry *)
+Theorem C04_register_never_collides : forall ws l, N.of_nat (length l) + 2 < two64 -> existsb is_forward l = false ->
   aget (m_pending (run ws mux0 l)) (m_next (run ws mux0 l)) = None.
 Proof. exact register_never_collides_reach. Qed.
 
 (** whatever is delivered to caller c carries the id issued to c *)
-Theorem C04_own_response : forall ws l c f, N.of_nat (length l) + 2 < two64 ->
+Theorem C04_own_response : forall ws l c f, N.of_nat (length l) + 2 < two64 -> all_fresh ws mux0 l = true ->
   In (c, OGot f) (m_out (run ws mux0 l)) -> aget (m_issued (run ws mux0 l)) c = Some (f_id f).
 Proof. exact own_response_reach. Qed.
 
 (** a call ends at most once *)
-Theorem C04_at_most_one : forall ws l, N.of_nat (length l) + 2 < two64 ->
+Theorem C04_at_most_one : forall ws l, N.of_nat (length l) + 2 < two64 -> all_fresh ws mux0 l = true ->
   NoDup (map fst (m_out (run ws mux0 l))).
 Proof. exact at_most_one_reach. Qed.
 
@@ -64,13 +76,30 @@ Theorem C04_ws_notify_to_subscriber_only : forall s f, f_notify f <> 0 ->
 Proof. exact ws_notify_readable. Qed.
 
 (** WebSocket client: no call ever returns a notification frame *)
-Theorem C04_ws_no_notify_to_caller : forall l c f, N.of_nat (length l) + 2 < two64 ->
+Theorem C04_ws_no_notify_to_caller : forall l c f, N.of_nat (length l) + 2 < two64 -> all_fresh true mux0 l = true ->
   In (c, OGot f) (m_out (run true mux0 l)) -> f_notify f = 0.
 Proof. exact ws_no_notify_to_caller_reach. Qed.
 
 (** a step that the program order does not enable is a stutter *)
 Theorem C04_disabled_stutter : forall ws s st, enabled s st = false -> mstep ws s st = s.
 Proof. exact disabled_stutter. Qed.
+
+(** AsyncClient::forward_message with an id that is in flight: the registration
+    is refused and nothing changes but the refused call's own outcome (the
+    owner's pending entry survives); the next response with that id is still
+    matched to the owner; and in every continuation whatever the owner is
+    handed carries that id *)
+Theorem C04_forward_duplicate_refused : forall ws l0 c id o,
+  N.of_nat (length l0) + 2 < two64 -> all_fresh ws mux0 l0 = true ->
+  let s := run ws mux0 l0 in
+  aget (m_pending s) id = Some o -> enabled s (Forward c id) = true ->
+  let s' := mstep ws s (Forward c id) in
+  s' = mkMux (m_next s) (m_pending s) (m_issued s) (m_wire s) (m_matched s) (m_out s ++ [(c, ORefused)]) (m_sub s) (m_dropped s) /\
+  (forall f, m_matched s = None -> ws && negb (f_notify f =? 0) = false -> f_id f = id ->
+     m_matched (mstep ws s' (Recv f)) = Some (o, f)) /\
+  (forall l f, N.of_nat (length l0 + length l) + 3 < two64 -> all_fresh ws s' l = true ->
+     In (o, OGot f) (m_out (run ws s' l)) -> f_id f = id).
+Proof. exact forward_duplicate_refused_reach. Qed.
 
 (** batch: for every schedule of the workers, a stored result sits at the index
     of the request it answers; once the queue is empty and no worker holds an
@@ -139,6 +168,45 @@ Example C04_nonvacuous_steps :
   m_matched (mstep false s (Recv (mkFrame 3 1 99))) = Some (2, mkFrame 3 1 99).
 Proof. vm_compute. repeat split; reflexivity. Qed.
 
+(** forwarded ids on an AsyncClient: two counter calls in flight (ids 1, 2); a
+    forward with the in-flight id 2 is refused and caller 1 (the owner) still
+    gets its response; a forward with the free id 9 is answered; a forward with
+    id 3, which the counter reaches next, makes the next counter call (caller 5)
+    fail with the duplicate error while the call after it (caller 6, id 4) is
+    fine; a forwarded notify returns Ok(None) *)
+Definition c04_fwd : c04_case :=
+  mkCase false 8
+    [Register 0; Write 0; Register 1; Write 1; Forward 2 2; Forward 3 9; Write 3; Forward 4 3; Write 4;
+     Register 5; Register 6; Write 6; FwdNotify 7;
+     Srv (SReply 4 0); Srv (SReply 1 0); Srv (SReply 6 0); Srv (SReply 3 0); Srv (SReply 0 0)].
+
+Example C04_nonvacuous_forward :
+  c04_wf c04_fwd = true /\
+  model_C04 c04_fwd = mkObs [CGot 0; CGot 1; CRefused; CGot 3; CGot 4; CRefused; CGot 6; CNone] [] [1; 2; 3; 4; 9].
+Proof. vm_compute. split; reflexivity. Qed.
+
+(** the oracle rejects the owner losing its response to a refused duplicate *)
+Example C04_oracle_rejects_forward :
+  ok_C04 c04_fwd (mkObs [CGot 0; CClosed; CRefused; CGot 3; CGot 4; CRefused; CGot 6; CNone] [] [1; 2; 3; 4; 9]) = false /\
+  ok_C04 c04_fwd (mkObs [CGot 0; CGot 1; CRefused; CGot 3; CGot 4; CRefused; CGot 6; CRefused] [] [1; 2; 3; 4; 9]) = false.
+Proof. vm_compute. split; reflexivity. Qed.
+
+(** REFUTED without [all_fresh]: caller 0's response (id 1) has been taken out
+    of the pending map by the reader but not yet handed over; a forward with
+    id 1 is accepted (the id is free again); caller 0 times out and its guard
+    removes "its" entry by id -- which now belongs to caller 1; the response to
+    caller 1 is then dropped as unknown and caller 1 never gets it *)
+Definition c04_reuse : c04_case :=
+  mkCase false 2
+    [Register 0; Write 0; Srv (SReply 0 0); Forward 1 1; Write 1; Timeout 0; Deliver; Srv (SReply 1 0)].
+
+Example C04_id_reuse_refuted :
+  all_enabled false mux0 (c_sched c04_reuse) = true /\
+  all_fresh false mux0 (c_sched c04_reuse) = false /\
+  model_C04 c04_reuse = mkObs [CTimeout; CClosed] [] [1; 1] /\
+  ok_C04 c04_reuse (model_C04 c04_reuse) = false.
+Proof. vm_compute. repeat split; reflexivity. Qed.
+
 (** batch: 5 requests, 2 workers, an uneven schedule; result = request + 100 *)
 Example C04_nonvacuous_batch :
   b_res (brun (fun q => q + 100) [10; 11; 12; 13; 14] [0; 1; 1; 1; 0; 1; 0; 0; 1; 1])
@@ -147,18 +215,30 @@ Example C04_nonvacuous_batch :
   b_hold (brun (fun q => q + 100) [10; 11; 12; 13; 14] [0; 1; 1; 1; 0; 1; 0; 0; 1; 1]) = [].
 Proof. vm_compute. repeat split; reflexivity. Qed.
 
-Check C04_ids_fresh : forall ws l id c, N.of_nat (length l) + 2 < two64 ->
+Check C04_all_fresh_without_forward : forall ws l, N.of_nat (length l) + 2 < two64 ->
+  existsb is_forward l = false -> all_fresh ws mux0 l = true.
+Check C04_forward_duplicate_refused : forall ws l0 c id o,
+  N.of_nat (length l0) + 2 < two64 -> all_fresh ws mux0 l0 = true ->
+  let s := run ws mux0 l0 in
+  aget (m_pending s) id = Some o -> enabled s (Forward c id) = true ->
+  let s' := mstep ws s (Forward c id) in
+  s' = mkMux (m_next s) (m_pending s) (m_issued s) (m_wire s) (m_matched s) (m_out s ++ [(c, ORefused)]) (m_sub s) (m_dropped s) /\
+  (forall f, m_matched s = None -> ws && negb (f_notify f =? 0) = false -> f_id f = id ->
+     m_matched (mstep ws s' (Recv f)) = Some (o, f)) /\
+  (forall l f, N.of_nat (length l0 + length l) + 3 < two64 -> all_fresh ws s' l = true ->
+     In (o, OGot f) (m_out (run ws s' l)) -> f_id f = id).
+Check C04_ids_fresh : forall ws l id c, N.of_nat (length l) + 2 < two64 -> existsb is_forward l = false ->
   In (id, c) (m_pending (run ws mux0 l)) -> id < m_next (run ws mux0 l).
-Check C04_ids_distinct : forall ws l, N.of_nat (length l) + 2 < two64 ->
+Check C04_ids_distinct : forall ws l, N.of_nat (length l) + 2 < two64 -> all_fresh ws mux0 l = true ->
   NoDup (map snd (m_issued (run ws mux0 l))) /\ NoDup (map snd (m_wire (run ws mux0 l))).
-Check C04_pending_inj : forall ws l, N.of_nat (length l) + 2 < two64 ->
+Check C04_pending_inj : forall ws l, N.of_nat (length l) + 2 < two64 -> all_fresh ws mux0 l = true ->
   NoDup (map fst (m_pending (run ws mux0 l))) /\
   forall id1 id2 c, In (id1, c) (m_pending (run ws mux0 l)) -> In (id2, c) (m_pending (run ws mux0 l)) -> id1 = id2.
-Check C04_register_never_collides : forall ws l, N.of_nat (length l) + 2 < two64 ->
+Check C04_register_never_collides : forall ws l, N.of_nat (length l) + 2 < two64 -> existsb is_forward l = false ->
   aget (m_pending (run ws mux0 l)) (m_next (run ws mux0 l)) = None.
-Check C04_own_response : forall ws l c f, N.of_nat (length l) + 2 < two64 ->
+Check C04_own_response : forall ws l c f, N.of_nat (length l) + 2 < two64 -> all_fresh ws mux0 l = true ->
   In (c, OGot f) (m_out (run ws mux0 l)) -> aget (m_issued (run ws mux0 l)) c = Some (f_id f).
-Check C04_at_most_one : forall ws l, N.of_nat (length l) + 2 < two64 ->
+Check C04_at_most_one : forall ws l, N.of_nat (length l) + 2 < two64 -> all_fresh ws mux0 l = true ->
   NoDup (map fst (m_out (run ws mux0 l))).
 Check C04_unknown_dropped : forall ws s f,
   m_matched s = None -> ws && negb (f_notify f =? 0) = false -> aget (m_pending s) (f_id f) = None ->
@@ -174,7 +254,7 @@ Check C04_ws_notify_to_subscriber_only : forall s f, f_notify f <> 0 ->
   let s' := mstep true s (Recv f) in
   m_pending s' = m_pending s /\ m_out s' = m_out (deliver s) /\ m_sub s' = m_sub s ++ [f] /\
   m_dropped s' = m_dropped (deliver s) /\ m_matched s' = None.
-Check C04_ws_no_notify_to_caller : forall l c f, N.of_nat (length l) + 2 < two64 ->
+Check C04_ws_no_notify_to_caller : forall l c f, N.of_nat (length l) + 2 < two64 -> all_fresh true mux0 l = true ->
   In (c, OGot f) (m_out (run true mux0 l)) -> f_notify f = 0.
 Check C04_disabled_stutter : forall ws s st, enabled s st = false -> mstep ws s st = s.
 Check C04_batch_aligned : forall res_of reqs sched i r,
@@ -186,6 +266,8 @@ Check C04_batch_complete : forall res_of reqs sched i q,
   nth_error (b_res (brun res_of reqs sched)) i = Some (Some (res_of q)).
 Check C04_holds : forall cs, c04_wf cs = true -> ok_C04 cs (model_C04 cs) = true.
 
+Print Assumptions C04_all_fresh_without_forward.
+Print Assumptions C04_forward_duplicate_refused.
 Print Assumptions C04_ids_fresh.
 Print Assumptions C04_ids_distinct.
 Print Assumptions C04_pending_inj.
